@@ -55,7 +55,8 @@ def sweep_cases(rng, tmpdir):
                 ('vd 0 set_fz0 %d 0 %s' % (idx, z(50)), 'EINVAL'), ('vd 0 set_fz0 0 %d %s' % (idx, z(50)), 'EINVAL'), ('vd 0 get_fz0_vector %d' % idx, 'EINVAL')]
     bad += [('vd 0 convert 0 99', 'EINVAL'),
             ('vd 0 set_format ' + h('Sxy'), 'EINVAL'), ('vd 0 set_format ' + h('zindb'), 'EINVAL'), ('vd 0 set_filetype 7', 'EINVAL'), ('vd 0 set_filetype -1', 'EINVAL'),
-            ('vd 0 set_fprecision 0', 'EINVAL'), ('vd 0 set_dprecision -3', 'EINVAL'),
+            ('vd 0 set_fprecision 0', 'EINVAL'), ('vd 0 set_dprecision -3', 'EINVAL'), ('vd 0 set_dprecision 1001', 'EINVAL'), ('vd 0 set_dprecision 50000000', 'EINVAL'),
+            ('vd 0 set_fprecision 2147483647', 'EINVAL'), ('vd 0 set_fprecision 1001', 'EINVAL'),
             ('vd 0 load ' + h(os.path.join(tmpdir, 'missing.npd')), 'ENOENT'), ('vd 0 save ' + h('/nonexistent-dir/x.npd'), 'ENOENT')]
     G.append(('vnadata', vd_setup, [(l, (e,), False) for l, e in bad], 'vd 0 digest',
               ['vd 0 set_cell 1 1 1 %s' % z(0.5), 'vd 0 get_cell 1 1 1', 'vd 0 convert 1 4', 'vd 0 cksave ' + h('x.npd'), 'vd 0 init 4 1 1 1', 'vd 0 free', 'vd 1 free']))
@@ -114,6 +115,15 @@ def sweep_cases(rng, tmpdir):
         ('cal new_set_pvalue_limit 0 %s' % d2(0.0), ('EINVAL',), False), ('cal new_set_pvalue_limit 0 %s' % d2(1.5), ('EINVAL',), False),
         ('cal new_set_m_error 0 2 F %s %s S %s %s N' % (d2(f2), d2(f1), d2(1e-4), d2(1e-4)), ('EINVAL',), False), ('cal new_set_m_error 0 1 N S %s N' % d2(-1.0), ('EINVAL',), False),
         ('cal make_vector 0 2 %s %s %s %s' % (d2(f2), d2(f1), z(0.1), z(0.2)), ('EINVAL',), False), ('cal make_vector 0 1 %s %s' % (d2(-5.0), z(0.1)), ('EINVAL',), False),
+        # not-a-number where a frequency, a sigma, a tolerance or a probability is expected: no comparison with it is true
+        ('cal make_vector 0 3 %s %s %s %s %s %s' % (d2(f1), d2(float('nan')), d2(f2), z(0.1), z(0.2), z(0.3)), ('EINVAL',), False),
+        ('cal make_vector 0 1 %s %s' % (d2(float('nan')), z(0.1)), ('EINVAL',), False),
+        ('cal make_vector 0 2 %s %s %s %s' % (d2(float('nan')), d2(f1), z(0.1), z(0.2)), ('EINVAL',), False),
+        ('cal make_correlated 0 1 2 F %s %s %s %s' % (d2(f1), d2(float('nan')), d2(0.1), d2(0.1)), ('EINVAL',), False),
+        ('cal make_correlated 0 1 1 N %s' % d2(float('nan')), ('EINVAL',), False),
+        ('cal get_parameter_value 0 3 %s' % d2(float('nan')), ('EINVAL',), False),
+        ('cal new_set_pvalue_limit 0 %s' % d2(float('nan')), ('EINVAL',), False), ('cal new_set_et_tolerance 0 %s' % d2(float('nan')), ('EINVAL',), False),
+        ('cal new_set_p_tolerance 0 %s' % d2(float('nan')), ('EINVAL',), False),
         ('cal make_unknown 0 99', ('EINVAL',), False), ('cal make_unknown 0 -1', ('EINVAL',), False), ('cal make_correlated 0 99 1 N %s' % d2(0.1), ('EINVAL',), False),
         ('cal make_correlated 0 1 1 N %s' % d2(-0.1), ('EINVAL',), False), ('cal delete_parameter 0 99', ('EINVAL',), False), ('cal delete_parameter 0 -1', ('EINVAL',), False),
         ('cal get_parameter_value 0 99 %s' % d2(f1), ('EINVAL',), False), ('cal get_parameter_value 0 3 %s' % d2(9e9), ('EINVAL',), False),
